@@ -221,6 +221,14 @@ var c15NetSets = [][]string{
 	{"10.1.0.0/30", "fd00::/126", "10.1.0.8/29", "fd00::10/124"},
 	{"10.1.64.0/19", "10.1.64.0/18", "10.1.96.0/19", "10.1.200.17", "fd00::abcd"},
 	{"10.1.255.254/31", "10.1.0.0/31", "10.1.127.255", "10.1.128.0/32"},
+	// nested networks sharing a base address, narrow first (and a host entry first)
+	{"10.1.0.0/24", "10.1.0.0/16"},
+	{"10.1.2.3", "10.1.2.0/24", "10.1.0.0/17"},
+	{"10.1.128.0/30", "10.1.128.0/20", "10.1.128.0/17"},
+	{"fd00::/120", "fd00::/112"},
+	{"fd00::8000", "fd00::8000/124", "fd00::8000/113"},
+	{"::ffff:10.1.0.0/120", "10.1.0.0/16"},
+	{"10.1.0.0/28", "::ffff:10.1.0.0/112"},
 }
 
 func c15RefTrusted(nets []*net.IPNet, ip net.IP) bool {
@@ -240,7 +248,18 @@ type c15IPCase struct {
 }
 
 func c15TrustedIPs(c *Ctx, up *world.Upstream) {
-	sets := c15NetSets
+	var sets [][]string
+	for _, set := range c15NetSets {
+		sets = append(sets, set)
+		if len(set) > 1 {
+			rev := make([]string, len(set))
+			for i := range set {
+				rev[len(set)-1-i] = set[i]
+			}
+			sets = append(sets, rev)
+		}
+	}
+	c.Info["net_sets_with_reversed_orders"] = len(sets)
 	for si, set := range sets {
 		if !c.Mine(si + 1000) {
 			continue
@@ -411,7 +430,7 @@ func init() {
 		level: "exploration",
 		rule: "full product methods x paths x queries x rule-sets x preflight through ServeHTTP (reference: regex on the path only, decoded and escaped readings; relational: outcome independent of the query) + every address of 10.1.0.0/16 (dotted, IPv4-mapped, hex-mapped) and of fd00::/112 per network set through isTrustedIP against net.IPNet.Contains, boundary addresses through ServeHTTP; non-trivial = case whose expected outcome is 'exempt'/'trusted'",
 		assumptions: []string{"path reading: URL.Path and EscapedPath both admissible; cases where they differ are counted as ambiguous", "exempt is observed as: status is neither 401 nor 403, or the upstream was hit"},
-		shards:      func(tier string) int { return 8 },
+		shards:      func(tier string) int { return 16 },
 		run: func(c *Ctx) {
 			world.NewIdP()
 			up := world.NewUpstream("u")
